@@ -173,6 +173,47 @@ func variant(raw []byte, rng *rand.Rand) []byte {
 	return exact(out)
 }
 
+// runVariant stretches every blank into a run of 8..17 blanks of one kind and every 'x' OUTSIDE a string
+// into a run of form feeds / escapes / vertical tabs (never JSON whitespace): reference verdicts are
+// invariant (a blank stays a blank, a stray byte stays a stray byte), lengths and counters are not.
+// Returns nil if the vector has neither.
+func runVariant(raw []byte, rng *rand.Rand) []byte {
+	var out []byte
+	inStr, esc, hit := false, false, false
+	for _, c := range raw {
+		switch {
+		case inStr:
+			out = append(out, c)
+			if esc {
+				esc = false
+			} else if c == '\\' {
+				esc = true
+			} else if c == '"' {
+				inStr = false
+			}
+		case c == '"':
+			inStr = true
+			out = append(out, c)
+		case c == ' ':
+			hit = true
+			out = append(out, bytes.Repeat([]byte{" \t\n\r"[rng.Intn(4)]}, 8+rng.Intn(10))...)
+		case c == 'x':
+			hit = true
+			n := 8 + rng.Intn(10)
+			out = append(out, '\f') // at least one byte that is not whitespace
+			for i := 1; i < n; i++ {
+				out = append(out, "\f\x1b\f\v\f\n\t\r"[rng.Intn(3+5*rng.Intn(2))])
+			}
+		default:
+			out = append(out, c)
+		}
+	}
+	if !hit {
+		return nil
+	}
+	return exact(out)
+}
+
 func firstNonSpaceIsOpen(b []byte) bool {
 	for _, c := range b {
 		if c == ' ' || c == '\t' || c == '\r' || c == '\n' {
@@ -240,6 +281,13 @@ func jsonvecMain(args []string) int {
 				for j := 0; j < *nvar; j++ {
 					inputs = append(inputs, variant(v.raw, rng))
 				}
+				stretched := -1
+				if v.q == "json" {
+					if rv := runVariant(v.raw, rng); rv != nil {
+						stretched = len(inputs)
+						inputs = append(inputs, rv)
+					}
+				}
 				if v.sLive && v.op {
 					atomic.AddInt64(&nontriv, 1)
 					if !v.sAcc {
@@ -250,7 +298,7 @@ func jsonvecMain(args []string) int {
 					atomic.AddInt64(&evals, 1)
 					n := len(raw)
 					parsed, inspected, first, qsat := mimetype.VerifJSONParse(v.q, raw)
-					if parsed != v.mParsed || inspected != v.mIB || first != v.mFirst || qsat != v.mQsat {
+					if vi != stretched && (parsed != v.mParsed || inspected != v.mIB || first != v.mFirst || qsat != v.mQsat) {
 						rep.drift(fmt.Sprintf("Parse(%s,%q) real=(%d,%d,%d,%v) model=(%d,%d,%d,%v)", v.q, raw, parsed, inspected, first, qsat, v.mParsed, v.mIB, v.mFirst, v.mQsat))
 					}
 					// oracle sanity: strict reference vs encoding/json
@@ -270,7 +318,7 @@ func jsonvecMain(args []string) int {
 					if whole0 != whole1 {
 						rep.violate(mkViolation("C08", "whole-mode-differs-limit0-vs-len+1", raw, int64(n+1), fmt.Sprintf("query=%s limit0=%v limit=len+1=%v", v.q, whole0, whole1)))
 					}
-					if whole0 != v.mWhole || (n > 0 && trunc != v.mTrunc) {
+					if vi != stretched && (whole0 != v.mWhole || (n > 0 && trunc != v.mTrunc)) {
 						rep.drift(fmt.Sprintf("accept(%s,%q) real=(whole %v, trunc %v) model=(%v,%v)", v.q, raw, whole0, trunc, v.mWhole, v.mTrunc))
 					}
 					if v.q == "json" {
